@@ -4,13 +4,25 @@ run the property's quick check against the worktree (VERIF_REPO) -> record under
 import glob, json, os, re, shutil, subprocess, sys, tempfile
 only = sys.argv[1:]
 SEED_DIR = os.environ.get("SEED_DIR", "/tmp/seed")
-RENAME = {"A": "C", "B": "D", "C": "E"} if SEED_DIR.endswith("seed2") else {}
+RENAME = {"A": "C", "B": "D", "C": "E"} if SEED_DIR.endswith("seed2") else {"A": "E", "B": "F", "C": "G"} if SEED_DIR.endswith("seed3") else {}
+# round 3: letters continue after those the property already has
+RENAME3 = {"C14": {"A": "C", "B": "D"}, "C17": {"A": "C", "B": "D"}, "C18": {"A": "C", "B": "D"}, "C20": {"A": "D", "B": "E"}}
+# the checks are run from a SNAPSHOT of the committed /verif (tracked files + build output), so that /verif can be edited meanwhile
+SNAP = os.environ.get("VERIF_SNAP")
+if SNAP:
+    if not os.path.exists(SNAP + "/check"):
+        os.makedirs(SNAP, exist_ok=True)
+        files = subprocess.run(["git", "-C", "/verif", "ls-files"], capture_output=True, text=True).stdout.split("\n")
+        open("/tmp/snapfiles.%d" % os.getpid(), "w").write("\n".join(f for f in files if f and not f.startswith(("seeded/", "replays/"))))
+        subprocess.run(["rsync", "-a", "--files-from=/tmp/snapfiles.%d" % os.getpid(), "/verif/", SNAP + "/"], check=True)
+        subprocess.run(["rsync", "-a", "/verif/lean/.lake", SNAP + "/lean/"], check=True)
+CHECK_ROOT = SNAP or "/verif"
 ENV = dict(os.environ, PYTHONDONTWRITEBYTECODE="1")
 results = []
 for patch in sorted(glob.glob(SEED_DIR + "/C*-out/patch_*.diff")):
     prop = re.search(r"/(C\d\d)-out/", patch).group(1)
     X = re.search(r"patch_(\w)\.diff", patch).group(1)
-    sid = f"{prop}-{RENAME.get(X, X)}"
+    sid = f"{prop}-{(RENAME3.get(prop, RENAME) if SEED_DIR.endswith('seed3') else RENAME).get(X, X)}"
     if only and prop not in only and sid not in only:
         continue
     demo = patch.replace("patch_", "demo_").replace(".diff", ".py")
@@ -33,7 +45,7 @@ for patch in sorted(glob.glob(SEED_DIR + "/C*-out/patch_*.diff")):
             meta["demo_on_unchanged"] = {"exit": d0.returncode, "last": (d0.stdout.strip().split("\n") or [""])[-1][:200]}
             meta["demo_discriminates"] = d1.returncode == 1 and d0.returncode == 0
             for tier in ("quick",):
-                c = subprocess.run(["/verif/check", prop, "--tier", tier], capture_output=True, text=True, env=dict(ENV, VERIF_REPO=wt), cwd="/verif", timeout=3600)
+                c = subprocess.run([CHECK_ROOT + "/check", prop, "--tier", tier], capture_output=True, text=True, env=dict(ENV, VERIF_REPO=wt), cwd=CHECK_ROOT, timeout=3600)
                 lines = [l for l in c.stdout.split("\n") if l.startswith(("VIOLATION", "OK ", "INTERNAL"))]
                 meta[f"check_{tier}"] = {"exit": c.returncode, "line": (lines[-1] if lines else c.stdout[-200:])[:200],
                                          "details": [l[:300] for l in c.stdout.split("\n") if l.startswith("DETAIL")][:3]}
@@ -56,4 +68,5 @@ for patch in sorted(glob.glob(SEED_DIR + "/C*-out/patch_*.diff")):
     json.dump(meta, open(out + "/meta.json", "w"), indent=1)
     print(sid, "suite_ok" if meta.get("suite_passes") else "SUITE?", "demo_ok" if meta.get("demo_discriminates") else "DEMO?",
           "DETECTED" if meta.get("detected_by_own_check") else "MISSED", "|", meta.get("check_quick", {}).get("line", "")[:110], flush=True)
-subprocess.run(["git", "-C", "/verif", "checkout", "--", "evidence"], capture_output=True)
+if not SNAP:
+    subprocess.run(["git", "-C", "/verif", "checkout", "--", "evidence"], capture_output=True)
